@@ -584,6 +584,21 @@ func genPipeDoc(r *Run, nd bool) (doc []byte, desc string) {
 		desc = fmt.Sprintf("%s size=%d", famNames[d.Fam], len(d.B))
 	}
 	doc = d.B
+	if !nd && c.Intn("emptybuffer", 14) == 0 {
+		// dense structurals, then a long token holding no structural: a later index buffer comes up empty
+		n := 8300 + c.Intn("ebprefix", 40000)
+		var b bytes.Buffer
+		b.WriteByte('[')
+		for b.Len() < n {
+			b.WriteString([]string{"[],", "{},", "0,", "[[]],"}[c.Intn("ebp", 4)])
+		}
+		b.WriteByte('"')
+		b.Write(bytes.Repeat([]byte{'a'}, 1+c.Intn("ebtail", 3000)))
+		if c.Intn("ebclose", 2) == 0 {
+			b.WriteString("\"]")
+		}
+		return append([]byte(nil), b.Bytes()...), fmt.Sprintf("dense-then-long-token size=%d", b.Len())
+	}
 	if c.Intn("defect", 3) == 0 {
 		kind := c.Intn("defkind", defCount)
 		pos := c.Intn("defpos", 4)
